@@ -137,3 +137,113 @@ mutant('C06', 'length-length-drops-conversion', UN, "value=self.to('m').value*ot
 mutant('C06', 'time-mul-speed-removed', UN, "if not isinstance(other, Time | float | int):", "if not isinstance(other, float | int):", 'C06.required', nth=0)
 benign('C06', 'commute-product', UN, "value=self.to('m').value*other.to('m').value,", "value=other.to('m').value*self.to('m').value,")
 benign('C06', 'convert-self-instead', UN, "return self.__value/other.to(self.__unit).value", "return self.to(other.unit).value/other.value", nth=4)
+
+MB = 'gearpy/mechanical_objects/mechanical_object_base.py'
+HG = 'gearpy/mechanical_objects/helical_gear.py'
+WG = 'gearpy/mechanical_objects/worm_gear.py'
+WW = 'gearpy/mechanical_objects/worm_wheel.py'
+SG = 'gearpy/mechanical_objects/spur_gear.py'
+
+# ------------------------------------------------------------------------------------------ C19
+mutant('C19', 'inertia-ctor-allows-zero', UN, "        if value <= 0:", "        if value < 0:", 'C19', nth=0)
+mutant('C19', 'length-ctor-allows-zero', UN, "        if value <= 0:", "        if value < 0:", 'C19', nth=2)
+mutant('C19', 'angle-ctor-allows-negative', UN, "        if value < 0:", "        if value < -1:", 'C19')
+mutant('C19', 'length-inplace-unchecked (pre-fix shape)', UN, """        converted = Length(value=target_value, unit=target_unit)
+
+        if inplace:
+            self.__value = converted.value
+            self.__unit = converted.unit
+            return self
+        else:
+            return converted""", """        if inplace:
+            self.__value = target_value
+            self.__unit = target_unit
+            return self
+        else:
+            return Length(value=target_value, unit=target_unit)""", 'C19.store')
+mutant('C19', 'timeinterval-inplace-unchecked (pre-fix shape)', UN, """        converted = super().to(target_unit=target_unit, inplace=False)
+        converted = TimeInterval(value=converted.value, unit=converted.unit)
+
+        if inplace:
+            super().to(target_unit=target_unit, inplace=True)
+            self.__value = converted.value""", """        converted = super().to(target_unit=target_unit, inplace=inplace)
+
+        if inplace:
+            self.__value = converted.value""", 'C19.store')
+mutant('C19', 'sub-translation-misses-zero', UB, "            if self.value - other.to(self.unit).value <= 0:", "            if self.value - other.to(self.unit).value < 0:", 'C19.sub')
+mutant('C19', 'motor-speed-allows-zero', DC, "if no_load_speed.value <= 0:", "if no_load_speed.value < 0:", 'C19.params')
+mutant('C19', 'motor-i0-equals-imax-accepted', DC, "if no_load_electric_current >= maximum_electric_current:", "if no_load_electric_current > maximum_electric_current:", 'C19.params')
+mutant('C19', 'motor-imax-allows-zero', DC, "if maximum_electric_current.value <= 0:", "if maximum_electric_current.value < 0:", 'C19.params')
+mutant('C19', 'helix-90-accepted', HG, "if helix_angle >= Angle(90, 'deg'):", "if helix_angle > Angle(90, 'deg'):", 'C19.params')
+mutant('C19', 'helix-compared-raw', HG, "if helix_angle >= Angle(90, 'deg'):", "if helix_angle.value >= 90:", 'C19.params')
+mutant('C19', 'pwm-setter-and', DC, "if (pwm > 1) or (pwm < -1):", "if (pwm > 1) and (pwm < -1):", 'C19.params')
+mutant('C19', 'worm-starts-zero', WG, "if n_starts < 1:", "if n_starts < 0:", 'C19.params')
+mutant('C19', 'elastic-modulus-zero', MB, "if elastic_modulus.value <= 0:", "if elastic_modulus.value < 0:", 'C19.params')
+mutant('C19', 'value-field-written-by-operator', UN, """        if other <= 0:
+            raise ValueError(
+                "Cannot perform a multiplication by a negative number or by "
+                "zero."
+            )
+
+        return InertiaMoment(value=self.__value*other, unit=self.__unit)""", """        self.__value = self.__value*other
+        return self""", 'C19', nth=0)
+benign('C19', 'motor-validation-reordered', DC, """        if no_load_speed.value <= 0:
+            raise ValueError("Parameter 'no_load_speed' must be positive.")
+
+        if maximum_torque.value <= 0:
+            raise ValueError("Parameter 'maximum_torque' must be positive.")
+""", """        if maximum_torque.value <= 0:
+            raise ValueError("Parameter 'maximum_torque' must be positive.")
+
+        if no_load_speed.value <= 0:
+            raise ValueError("Parameter 'no_load_speed' must be positive.")
+""")
+benign('C19', 'length-inplace-explicit-check', UN, """        converted = Length(value=target_value, unit=target_unit)
+
+        if inplace:
+            self.__value = converted.value
+            self.__unit = converted.unit
+            return self
+        else:
+            return converted""", """        if inplace:
+            if target_value <= 0:
+                raise ValueError("Parameter 'value' must be positive.")
+            self.__value = target_value
+            self.__unit = target_unit
+            return self
+        else:
+            return Length(value=target_value, unit=target_unit)""")
+benign('C19', 'helix-threshold-in-rad', HG, "if helix_angle >= Angle(90, 'deg'):", "if helix_angle >= Angle(pi/2, 'rad'):")
+
+# ------------------------------------------------------------------------------------------ C09
+FORCE_M = "self.tangential_force = \\\n                abs(self.load_torque)/(self.reference_diameter/2)"
+mutant('C09', 'spur-force-times-2', SG, "abs(self.load_torque)/(self.reference_diameter/2)", "abs(self.load_torque)/(self.reference_diameter*2)", 'C09.force')
+mutant('C09', 'spur-force-roles-swapped', SG, "abs(self.driving_torque)/(self.reference_diameter/2)", "abs(self.load_torque)/(self.reference_diameter/2)", 'C09.force')
+mutant('C09', 'helical-force-no-abs', HG, "abs(self.driving_torque)/(self.reference_diameter/2)", "self.driving_torque/(self.reference_diameter/2)", 'C09.force')
+mutant('C09', 'wheel-force-role-test', WW, "        if self.mating_role == MatingMaster:\n            self.tangential_force", "        if self.mating_role == MatingSlave:\n            self.tangential_force", 'C09.force')
+mutant('C09', 'spur-bending-times-Y', SG, "(self.module*self.face_width)/self.lewis_factor", "(self.module*self.face_width)*self.lewis_factor", 'C09.bending')
+mutant('C09', 'helical-virtual-teeth-cos-power', HG, "n_teeth/(BASE_HELIX_ANGLE.cos())**2", "n_teeth/(BASE_HELIX_ANGLE.cos())**3", 'C09.lewis-arg')
+mutant('C09', 'helical-base-helix-cos-for-tan', HG, "self.__TRANSVERSE_PRESSURE_ANGLE.cos() *\n                        self.__helix_angle.tan()", "self.__TRANSVERSE_PRESSURE_ANGLE.cos() *\n                        self.__helix_angle.cos()", 'C09')
+mutant('C09', 'spur-lewis-wrong-argument', SG, "                    self.n_teeth\n                ).take(0)", "                    self.n_teeth + 1\n                ).take(0)", 'C09.lewis-arg')
+mutant('C09', 'wheel-normal-pitch-cos', WW, "self.drives.helix_angle.sin()/self.n_teeth", "self.drives.helix_angle.cos()/self.n_teeth", 'C09.bending')
+mutant('C09', 'wheel-effective-width-067', WW, "0.67*self.driven_by.reference_diameter", "0.76*self.driven_by.reference_diameter", 'C09.bending')
+mutant('C09', 'spur-hertz-constant', SG, "value=0.262922*sqrt(", "value=0.262292*sqrt(", 'C09.contact')
+mutant('C09', 'spur-contact-sin-cos', SG, "self.tangential_force/self.__PRESSURE_ANGLE.cos()", "self.tangential_force/self.__PRESSURE_ANGLE.sin()", 'C09.contact')
+mutant('C09', 'helical-contact-drops-cos-beta', HG, "(self.face_width/self.__helix_angle.cos()*inverse_curvature_sum)", "(self.face_width*inverse_curvature_sum)", 'C09.contact')
+mutant('C09', 'spur-contact-E-difference', SG, "(self.elastic_modulus + mate_elastic_modulus)", "(self.elastic_modulus - mate_elastic_modulus)", 'C09.contact')
+mutant('C09', 'spur-contact-unit-MPa', SG, "contact_pressure.to('Pa').value", "contact_pressure.to('MPa').value", 'C09.contact')
+mutant('C09', 'spur-mate-check-deleted', SG, """            if self.drives.elastic_modulus is not None:
+                mate_elastic_modulus = self.drives.elastic_modulus
+            else:""", """            if True:
+                mate_elastic_modulus = self.drives.elastic_modulus
+            else:""", 'C09')
+mutant('C09', 'flag-bending-or', MB, "return (self.__module is not None) and (self.__face_width is not None)", "return (self.__module is not None) or (self.__face_width is not None)", 'C09.flags')
+mutant('C09', 'flag-contact-drops-modulus', MB, "            (self.__face_width is not None) and \\\n            (self.__elastic_modulus is not None)", "            (self.__face_width is not None)", 'C09.flags')
+mutant('C09', 'wheel-flag-ignores-worm-diameter', WW, "self.drives.reference_diameter is not None", "True", 'C09.flags')
+mutant('C09', 'lewis-bounds-error', MB, "    bounds_error=False\n)", "    bounds_error=True\n)", 'C09.lewis-interp')
+mutant('C09', 'lewis-kind-nearest', MB, "    bounds_error=False\n)", "    bounds_error=False,\n    kind='nearest'\n)", 'C09.lewis-interp')
+mutant('C09', 'lewis-row-edited', 'gearpy/mechanical_objects/gear_data/lewis_factor_table.csv', "24,0.337", "24,0.373", 'C09.lewis-table')
+mutant('C09', 'worm-row-edited', 'gearpy/mechanical_objects/gear_data/worm_gear_and_wheel_data.csv', "25,35,0.15", "25,35,0.175", 'C09.worm-table')
+benign('C09', 'force-diameter-halved-first', SG, "abs(self.load_torque)/(self.reference_diameter/2)", "2*abs(self.load_torque)/self.reference_diameter")
+benign('C09', 'bending-single-division', HG, "self.tangential_force / \\\n            (self.module*self.face_width)/self.lewis_factor", "self.tangential_force / \\\n            (self.module*self.face_width*self.lewis_factor)")
+benign('C09', 'force-elif-to-nested-if', SG, "        elif self.mating_role == MatingSlave:\n            self.tangential_force", "        elif not self.mating_role != MatingSlave:\n            self.tangential_force")
